@@ -174,8 +174,9 @@ impl<'a> SubsetTable<'a> for ClassDefFormat1<'a> {
         let glyph_map = &plan.glyph_map_gsub;
 
         let start = self.start_glyph_id().to_u32();
-        let end = start + self.glyph_count() as u32 - 1;
-        let end = plan.glyphset_gsub.last().unwrap().to_u32().min(end);
+        // exclusive end: an empty class def (start 0, glyph count 0) is valid
+        let end = start + self.glyph_count() as u32;
+        let end = (plan.glyphset_gsub.last().unwrap().to_u32() + 1).min(end);
 
         let class_values = self.class_value_array();
         let mut retained_classes = IntSet::empty();
@@ -183,7 +184,7 @@ impl<'a> SubsetTable<'a> for ClassDefFormat1<'a> {
         let cap = glyph_map.len().min(self.glyph_count() as usize);
         let mut new_gid_classes = Vec::with_capacity(cap);
 
-        for g in start..=end {
+        for g in start..end {
             let gid = GlyphId::from(g);
             let Some(new_gid) = glyph_map.get(&gid) else {
                 continue;
@@ -940,6 +941,33 @@ mod test {
         let subsetted_data = s.copy_bytes();
         let expected_bytes: [u8; 8] = [0x00, 0x01, 0x00, 0x02, 0x00, 0x02, 0x00, 0x04];
         assert_eq!(subsetted_data, expected_bytes);
+    }
+
+    #[test]
+    fn test_subset_empty_classdef_format1() {
+        use write_fonts::read::{FontData, FontRead};
+        // format 1, start glyph 0, glyph count 0: a valid, empty class def
+        let bytes = [0u8, 1, 0, 0, 0, 0];
+        let class_def = ClassDefFormat1::read(FontData::new(&bytes)).unwrap();
+
+        let mut plan = Plan::default();
+        plan.glyphset_gsub.insert(GlyphId::NOTDEF);
+        plan.glyph_map_gsub.insert(GlyphId::NOTDEF, GlyphId::NOTDEF);
+
+        let mut s = Serializer::new(1024);
+        assert_eq!(s.start_serialize(), Ok(()));
+        let ret = class_def.subset(
+            &plan,
+            &mut s,
+            &ClassDefSubsetStruct {
+                remap_class: false,
+                keep_empty_table: true,
+                use_class_zero: true,
+                glyph_filter: None,
+            },
+        );
+        assert!(ret.is_ok());
+        assert!(!s.in_error());
     }
 
     #[test]
